@@ -95,8 +95,10 @@ Idents5 == {<<"a">>, <<"a", "b">>, <<"a", "b", "c">>, <<"b">>, <<"b", "a">>}
 (* identifiers in tokens are character sequences; turn requested names into the same form *)
 QNames == UNION {[1..d -> Idents] : d \in 1..Depth}
 VARIABLE req
-KS(j, S) == IF j > Cardinality(S) THEN {} ELSE kSubset(j, S)
-FInit == req \in UNION {KS(j, QNames) : j \in 0..MaxNames}
+(* all subsets of S with at most k elements (kSubset of the CommunityModules is limited to 62 elements) *)
+RECURSIVE UpTo(_, _)
+UpTo(S, k) == IF k = 0 THEN {{}} ELSE LET R == UpTo(S, k - 1) IN R \cup {T \cup {x} : T \in R, x \in S}
+FInit == req \in UpTo(QNames, MaxNames)
 FSpec == FInit /\ [][UNCHANGED req]_req
 WriterIsWellFormed == WellFormed(Write({Chars(q) : q \in req}), req)
 (* R binding: every name set of the universe as a stimulus for the real writer *)
